@@ -148,7 +148,7 @@ static std::string check_value_su(cif_value_tp *v, const ustr &text, const Num &
     auto label = [&](const std::string &l) { if (strcmp(what, "c-direct") != 0) vh::label(l); };   // the second pass over the same text is not counted twice
     if (d.val.tie) label(std::string(what) + (d.val.tie == 1 ? ":value-exact-tie(even-below)" : ":value-exact-tie(even-above)"));
     if (d.su.tie) label(std::string(what) + (d.su.tie == 1 ? ":su-exact-tie(even-below)" : ":su-exact-tie(even-above)"));
-    if (skip_known && !no_exclude() && (d.val.tie == 2 || d.su.tie == 2)) { count_excluded("F-TIE-ODD"); return ""; }
+    (void) skip_known;   // F-TIE-ODD is fixed in /repo: odd ties are checked like everything else
     double got = 0, gsu = 0;
     int r1 = cif_value_get_number(v, &got);
     if (r1 != CIF_OK) return std::string(what) + ": cif_value_get_number returned " + cm::code_name(r1) + " for '" + clip(u8(text)) + "'";
@@ -736,9 +736,7 @@ static std::string classify_case(const CaseFile &c) {
     std::string sub = c.get("sub");
     if (sub == "a" || sub == "b") {
         ustr t = deser_u16(c.get("text"));
-        if (expovf_text(t)) return "F-EXPOVF";
-        if (sub == "b" && odd_tie_text(t)) return "F-TIE-ODD";
-        return "";
+        return "";   // F-EXPOVF and F-TIE-ODD are fixed findings: they suppress nothing
     }
     if (sub == "c" && msp_log10_val(bits_de(c.get("val")))) {
         g_force_tolerate = true; std::string m = run_case(c); g_force_tolerate = false;
@@ -764,9 +762,9 @@ int main(int argc, char **argv) {
         bool ok = !want('a') || rc::check("C10(a) cif_value_parse_numb accepts exactly CIF numeric syntax; refusal leaves the value unchanged", []() {
             std::string kind; ustr s = gen_a(kind);
             for (auto &ch : s) if (ch == 0) ch = u'x';
-            if (expovf_text(s)) { count_excluded("F-EXPOVF"); size_t p = s.find_first_of(u"eE"); s.erase(p); if (s.empty()) s = u"1"; }
+            // (F-EXPOVF is fixed in /repo: over-long exponents are legitimate acceptance inputs)
             CaseFile c; c.set("sub", "a"); c.set("text", ser_u16(s)); c.seti("prior", R(0, 6)); c.set("kind", kind);
-            begin_case(c);
+            VH_BEGIN(c);
             label("a:gen-" + kind);
             Num n = parse_num(s);
             if (!n.ok && kind == "single-edit") nontrivial(fnv("a|" + c.get("text")));   // a refused neighbour of a valid number
@@ -778,11 +776,9 @@ int main(int argc, char **argv) {
         ok = !want('b') || rc::check("C10(b) get_number / get_su are the correctly rounded doubles of the decimal text", []() {
             BCase b = gen_b();
             ustr s = to_u16(b.text);
-            for (int tries = 0; tries < 20 && !no_exclude() && odd_tie_text(s); tries++) { count_excluded("F-TIE-ODD"); b = gen_b(); s = to_u16(b.text); }   // known finding, witness replayed separately
-            if (!no_exclude() && odd_tie_text(s)) { b.text = "1.5"; b.fam = "everyday"; b.tie = false; s = to_u16(b.text); }
-            if (expovf_text(s)) { count_excluded("F-EXPOVF"); return; }   // cannot happen: exponents have <= 8 digits by construction
+            // (F-TIE-ODD and F-EXPOVF are fixed in /repo: nothing is excluded here any more)
             CaseFile c; c.set("sub", "b"); c.set("text", ser_u16(s)); c.set("fam", b.fam); c.seti("route", W({{4, 0}, {1, 1}}));
-            begin_case(c);
+            VH_BEGIN(c);
             Num n = parse_num(s);
             size_t sig = strip0(n.mant).size();
             if (b.tie) label("b:generated-exact-tie");
@@ -798,7 +794,7 @@ int main(int argc, char **argv) {
             CCase k = gen_c();
             CaseFile c; c.set("sub", "c"); c.set("fn", k.autoi ? "auto" : "init"); c.set("val", bits_ser(k.val)); c.set("su", bits_ser(k.su));
             c.seti("scale", k.scale); c.seti("mlz", k.mlz); c.seti("rule", (long) k.rule); c.set("fam", k.fam); c.seti("prior", W({{5, 0}, {1, R(1, 6)}}));
-            begin_case(c);
+            VH_BEGIN(c);
             if (k.tie || k.fam == "tie-at-scale+-1ulp" || k.fam == "nines" || k.fam == "bignum-group-boundary" || (k.su != 0 && std::abs(k.scale) > 8)) nontrivial(fnv("c|" + c.get("fn") + c.get("val") + c.get("su") + c.get("scale") + "|" + c.get("rule") + "|" + c.get("mlz")));
             char b[200];
             if (k.autoi) snprintf(b, sizeof b, "(c) autoinit_numb(%.17g, su=%.6g, rule=%u) [%s]", k.val, k.su, k.rule, k.fam.c_str());
